@@ -549,6 +549,7 @@ type c04xGate struct {
 	mu      sync.Mutex
 	racing  bool
 	strict  bool
+	gen     int // deep4-C04: number of the race in progress
 	ev      chan c04xEvent
 	release [3]chan struct{}
 }
@@ -556,6 +557,7 @@ type c04xGate struct {
 type c04xEvent struct {
 	h        int
 	finished bool
+	resp     *opbed.Resp // deep4-C04: the answer travels with the `finished` event
 }
 
 func newC04xGate() *c04xGate { return &c04xGate{} }
@@ -572,12 +574,17 @@ func (g *c04xGate) park(ctx context.Context) {
 	if !racing {
 		return
 	}
-	h, _ := ctx.Value(c04xHandlerKey{}).(int)
-	if h == 0 {
+	hv, _ := ctx.Value(c04xHandlerKey{}).([2]int)
+	g.mu.Lock()
+	gen, evc := g.gen, g.ev
+	g.mu.Unlock()
+	h := hv[1]
+	if h == 0 || hv[0] != gen { // not a participant of THIS race (deep4-C04: e.g. an abandoned handler of an earlier one)
 		return
 	}
-	g.ev <- c04xEvent{h: h}
-	<-g.release[h]
+	rel := g.release[h]
+	evc <- c04xEvent{h: h}
+	<-rel
 }
 
 func (g *c04xGate) AuthRequestByCode(ctx context.Context, code string) (op.AuthRequest, error) {
@@ -610,19 +617,73 @@ func (g *c04xGate) DeleteAuthRequest(ctx context.Context, id string) error {
 type c04xRaceReq struct {
 	codeStr, codeLabel, redirect, verifier string
 	caller                                  *flowClient
+	secret                                  string // deep4-C04: "" = the caller's own secret; otherwise the (wrong) secret presented
 	line                                    *hx.Line
 	auth                                    opbed.Auth
 	resp                                    *opbed.Resp
+	hung                                    bool // deep4-C04: the handler never answered (the harness gave up on it)
+}
+
+// deep4-C04: how long the scheduler waits for a stepped handler to reach its next storage call or its end before it declares it
+// BLOCKED ON THE OTHER HANDLER (which is parked in the gate at that moment).  The unchanged library never blocks, so the
+// patience is only ever used up by code that makes one exchange wait for another (a per-code lock, an in-flight group, ...);
+// generous at first (a loaded machine must not look like a block), short once blocking has been seen a few times.
+var c04xBlocksSeen int
+
+func c04xPatience() time.Duration {
+	if c04xBlocksSeen < 3 {
+		return 2 * time.Second
+	}
+	return 300 * time.Millisecond
+}
+
+// authAs describes and builds the credentials of a race participant: the caller's own (x.auth), or - secret != "" - its client id
+// with a WRONG secret (confidential clients; deep4-C04)
+func (x *c04xCtx) authAs(l *hx.Line, pfx string, q *c04xRaceReq) opbed.Auth {
+	c := q.caller.c
+	if q.secret == "" || c.Auth == oidc.AuthMethodNone || c.Auth == oidc.AuthMethodPrivateKeyJWT {
+		return x.auth(l, pfx, q.caller)
+	}
+	l.S(pfx+"caller", c.ID)
+	if c.Auth == oidc.AuthMethodPost {
+		l.S(pfx+"auth", "post").S(pfx+"cid", c.ID).S(pfx+"secret", q.secret)
+		return opbed.Auth{Kind: "post", ID: c.ID, Secret: q.secret}
+	}
+	l.S(pfx+"auth", "basic").S(pfx+"cid", c.ID).S(pfx+"secret", q.secret)
+	return opbed.Auth{Kind: "basic", ID: c.ID, Secret: q.secret}
 }
 
 // race: authorize + login + callback, then two exchanges at once under a random interleaving of (lookup, create, delete) x 2.
 // Variants: the same code twice / two codes of one request / codes of two requests; storage contract strict / idempotent.
+// deep4-C04: (1) the second request of a same-code pair is, more often than not, one that must be REFUSED on its own account - a
+// foreign client authenticating correctly as itself (with the rightful redirect_uri and verifier, or with its own redirect_uri and
+// none), the rightful client without / with a wrong code_verifier, with another redirect_uri, with a wrong secret; each of the
+// two answers is judged against ITS OWN request.  (2) The scheduler survives a handler that BLOCKS on the other one: every step
+// has a watchdog; a handler that neither reaches its next storage call nor finishes while the other one is parked is recorded as
+// blocked, the other one is stepped on, and what the blocked one does once it is let go (events arrive whenever they arrive) is
+// recorded as it happens.  The schedule written on the lines is the EFFECTIVE one: the storage-relevant steps in the order in
+// which they completed.  No case can hang the harness: a handler that has not answered after the drain is written as `obs=hang`.
 func (x *c04xCtx) race() {
 	r := x.r
 	el := x.eligible(func(fc *flowClient) bool { return fc.c.Auth != oidc.AuthMethodPrivateKeyJWT })
 	fc := el[r.Intn(len(el))]
+	variantWish := r.Intn(10)
+	kind := "valid"
+	if variantWish >= 2 && r.Chance(65) {
+		kind = hx.Pick(r, "foreign-client", "foreign-client-own-redirect", "no-verifier", "wrong-verifier", "wrong-redirect", "wrong-secret")
+	}
+	if kind == "wrong-secret" {
+		conf := x.eligible(func(fc *flowClient) bool {
+			return fc.c.Auth != oidc.AuthMethodPrivateKeyJWT && fc.c.Auth != oidc.AuthMethodNone
+		})
+		if len(conf) == 0 {
+			kind = "wrong-redirect"
+		} else {
+			fc = conf[r.Intn(len(conf))]
+		}
+	}
 	pk := c04xPKCE{}
-	if fc.c.Auth == oidc.AuthMethodNone || r.Chance(30) {
+	if fc.c.Auth == oidc.AuthMethodNone || r.Chance(30) || kind == "no-verifier" || kind == "wrong-verifier" {
 		pk = c04xMakePKCE(r, hx.Pick(r, "s256", "plain"))
 	}
 	scopes := hx.Pick(r, "openid", "openid offline_access")
@@ -638,7 +699,7 @@ func (x *c04xCtx) race() {
 	a := c04xRaceReq{codeStr: ic.real, codeLabel: ic.label, redirect: redirect, verifier: pk.verifier, caller: fc}
 	b := a
 	variant := "same-code"
-	switch k := r.Intn(10); {
+	switch k := variantWish; {
 	case k == 0: // a second callback: another code for the SAME request
 		if ic2 := x.doCallback(id, false); ic2 != nil {
 			b.codeStr, b.codeLabel = ic2.real, ic2.label
@@ -653,6 +714,34 @@ func (x *c04xCtx) race() {
 			}
 		}
 	}
+	// deep4-C04: the intruder's request (same code)
+	switch kind {
+	case "foreign-client", "foreign-client-own-redirect":
+		others := x.eligible(func(o *flowClient) bool { return o.c.Auth != oidc.AuthMethodPrivateKeyJWT && o.c.ID != fc.c.ID })
+		if len(others) == 0 {
+			kind = "wrong-redirect"
+			b.redirect = redirect + "/"
+			break
+		}
+		b.caller = others[r.Intn(len(others))]
+		if kind == "foreign-client-own-redirect" {
+			b.redirect = b.caller.c.Redirects[r.Intn(len(b.caller.c.Redirects))]
+			b.verifier = ""
+		}
+	case "no-verifier":
+		b.verifier = ""
+	case "wrong-verifier":
+		b.verifier = hx.Pick(r, pk.verifier+"x", pk.challenge+"-", "another-verifier-AAAAAAAAAAAAAAAAAAAAAAAAAAAAAAAAAAAAAAAAA")
+	case "wrong-redirect":
+		b.redirect = redirect + "/"
+		for _, o := range fc.c.Redirects {
+			if o != redirect && r.Bool() {
+				b.redirect = o
+			}
+		}
+	case "wrong-secret":
+		b.secret = fc.c.Secret + "-wrong"
+	}
 	strict := r.Bool()
 	// a random interleaving: three slots for each handler
 	sched := []int{1, 1, 1, 2, 2, 2}
@@ -662,11 +751,14 @@ func (x *c04xCtx) race() {
 	}
 	x.stats["scripted-race"]++
 	x.stats["race-"+variant]++
+	x.stats["race-second-request-"+kind]++
 
 	g := x.gate
 	g.st = x.bed.Store
 	g.mu.Lock()
 	g.racing, g.strict = true, strict
+	g.gen++
+	gen := g.gen
 	g.ev = make(chan c04xEvent)
 	g.release[1], g.release[2] = make(chan struct{}), make(chan struct{})
 	g.mu.Unlock()
@@ -676,7 +768,7 @@ func (x *c04xCtx) race() {
 		q := reqs[h]
 		q.line = hx.NewLine(x.prop)
 		// the line is completed when the completion order is known; credentials are described now (an assertion is minted here)
-		q.auth = x.auth(hx.NewLine(x.prop), "", q.caller)
+		q.auth = x.authAs(hx.NewLine(x.prop), "", q)
 	}
 	waitClearOfSecondEdge()
 	t0 := time.Now()
@@ -691,6 +783,7 @@ func (x *c04xCtx) race() {
 		mark = len(j)
 	}
 	var order []int
+	ev := g.ev
 	serve := func(h int) {
 		q := reqs[h]
 		form := url.Values{"grant_type": {"authorization_code"}, "code": {q.codeStr}, "redirect_uri": {q.redirect}}
@@ -698,7 +791,7 @@ func (x *c04xCtx) race() {
 			form.Set("code_verifier", q.verifier)
 		}
 		req := x.bed.Form("/oauth/token", form, q.auth)
-		req = req.WithContext(context.WithValue(req.Context(), c04xHandlerKey{}, h))
+		req = req.WithContext(context.WithValue(req.Context(), c04xHandlerKey{}, [2]int{gen, h}))
 		w := httptest.NewRecorder()
 		out := &opbed.Resp{}
 		func() {
@@ -714,17 +807,62 @@ func (x *c04xCtx) race() {
 		if json.Unmarshal(out.Body, &m) == nil {
 			out.JSON = m
 		}
-		q.resp = out
-		g.ev <- c04xEvent{h: h, finished: true}
+		ev <- c04xEvent{h: h, finished: true, resp: out}
 	}
-	wait := func(h int) { // h runs alone: its next event is a park or its end
-		e := <-g.ev
+	var (
+		released [3]bool // a storage call of h was let through and its completion (the next park / the end) has not been seen yet
+		parks    [3]int  // how often h has arrived at the gate
+		eff      []int   // the EFFECTIVE schedule: storage-relevant steps in the order in which they completed
+		blocked  []string
+	)
+	process := func(e c04xEvent) {
 		collect(e.h)
+		// a step of the model's handler: a storage call that was let through has completed, or the handler ended without ever
+		// reaching the gate (refused - or answered - before its lookup)
+		if released[e.h] || (e.finished && parks[e.h] == 0) {
+			eff = append(eff, e.h)
+		}
+		released[e.h] = false
 		if e.finished {
+			reqs[e.h].resp = e.resp
 			state[e.h] = "finished"
 			order = append(order, e.h)
 		} else {
+			parks[e.h]++
 			state[e.h] = "parked"
+		}
+	}
+	// await: the next event of handler h (events of the other handler - one that was blocked and has been let go - are taken as
+	// they come); false = nothing from h within d
+	await := func(h int, d time.Duration) bool {
+		timer := time.NewTimer(d)
+		defer timer.Stop()
+		for {
+			select {
+			case e := <-ev:
+				process(e)
+				if e.h == h {
+					return true
+				}
+			case <-timer.C:
+				return false
+			}
+		}
+	}
+	markBlocked := func(h int, where string) {
+		if state[h] != "blocked" {
+			c04xBlocksSeen++
+			blocked = append(blocked, fmt.Sprintf("%d@%s:other-%s", h, where, state[3-h]))
+			x.stats["race-handler-blocked-"+where+"-while-other-"+state[3-h]]++
+		}
+		state[h] = "blocked"
+	}
+	release := func(h int, where string) {
+		state[h] = "running"
+		released[h] = true
+		g.release[h] <- struct{}{}
+		if !await(h, c04xPatience()) {
+			markBlocked(h, where)
 		}
 	}
 	// one slot of the schedule = one storage-relevant step of that handler.  A handler starts at its first slot: it runs up to its
@@ -735,58 +873,88 @@ func (x *c04xCtx) race() {
 		case "new":
 			state[h] = "running"
 			go serve(h)
-			wait(h)
+			if !await(h, c04xPatience()) {
+				markBlocked(h, "before-lookup")
+				return
+			}
 			if state[h] == "parked" {
-				state[h] = "running"
-				g.release[h] <- struct{}{}
-				wait(h)
+				release(h, "in-lookup")
 			}
 		case "parked":
-			state[h] = "running"
-			g.release[h] <- struct{}{}
-			wait(h)
+			release(h, fmt.Sprintf("after-park-%d", parks[h]))
+		case "blocked":
+			// still waiting for the other handler?  (its event may be pending)
+			if await(h, 20*time.Millisecond) && state[h] == "parked" {
+				release(h, fmt.Sprintf("after-park-%d", parks[h]))
+			}
 		}
 	}
 	for _, h := range sched {
 		step(h)
 	}
-	for _, h := range []int{1, 1, 1, 1, 2, 2, 2, 2} { // drain: the first, then the second handler to its end
-		step(h)
+	// drain: the first, then the second handler to its end; a handler that is blocked on the other one gets its turn again
+	for round := 0; round < 4 && len(order) < 2; round++ {
+		for _, h := range []int{1, 1, 1, 1, 2, 2, 2, 2} {
+			if len(order) == 2 {
+				break
+			}
+			step(h)
+		}
 	}
 	t1 := time.Now()
 	g.mu.Lock()
 	g.racing, g.strict = false, false
 	g.mu.Unlock()
-	if len(order) != 2 {
-		panic("c04x race: a handler did not finish")
+	for h := 1; h <= 2; h++ {
+		if state[h] != "finished" { // never answered: neither judged nor waited for any longer (the goroutine is abandoned)
+			reqs[h].hung, reqs[h].resp = true, &opbed.Resp{}
+			order = append(order, h)
+			x.stats["race-HANDLER-HUNG"]++
+		}
 	}
 	first, second := order[0], order[1]
 	// the schedule in terms of the handler that finished first (A) and the other one (B)
-	var schedAB []string
-	for _, h := range sched {
+	ab := func(h int) string {
 		if h == first {
-			schedAB = append(schedAB, "A")
-		} else {
-			schedAB = append(schedAB, "B")
+			return "A"
 		}
+		return "B"
+	}
+	var schedAB, blockedAB []string
+	for _, h := range eff {
+		schedAB = append(schedAB, ab(h))
+	}
+	for _, bl := range blocked {
+		blockedAB = append(blockedAB, ab(int(bl[0]-'0'))+bl[1:])
 	}
 	okBoth := 0
 	for n, h := range []int{first, second} {
 		q, other := reqs[h], reqs[3-h]
 		q.resp.Journal = journal[h]
 		l := hx.NewLine(x.prop).I("case", int64(*x.caseNo)).S("op", "exchange").S("code", q.codeLabel).S("redirect", q.redirect).S("verifier", q.verifier)
-		x.auth(l, "", q.caller) // describes the same credentials again (secret clients; assertion clients are excluded from races)
+		x.authAs(l, "", q) // describes the same credentials again (secret clients; assertion clients are excluded from races)
 		l.I("now0", t0.UnixNano()).I("now1", t1.UnixNano())
-		l.S("conc", variant).B("conc.strict", strict).L("conc.sched", schedAB)
+		l.S("conc", variant).B("conc.strict", strict).L("conc.sched", schedAB).S("conc.kind", kind)
+		l.I("conc.nblocked", int64(len(blockedAB)))
+		if len(blockedAB) > 0 {
+			l.L("conc.blocked", blockedAB)
+		}
 		if n == 0 {
 			l.S("c2.code", other.codeLabel).S("c2.redirect", other.redirect).S("c2.verifier", other.verifier)
-			x.auth(l, "c2.", other.caller)
+			x.authAs(l, "c2.", other)
 		} else {
 			l.B("conc.second", true)
 		}
-		x.respObs(l, q.resp)
+		if q.hung {
+			l.S("obs", "hang").L("journal", q.resp.Journal)
+		} else {
+			x.respObs(l, q.resp)
+		}
 		if q.resp.Status == 200 {
 			okBoth++
+			if h == 2 && kind != "valid" {
+				x.stats["race-REFUSABLE-REQUEST-GOT-TOKENS"]++
+			}
 		}
 		x.stats["op-exchange"]++
 		x.stats["exchange-"+obsClass(q.resp)]++
@@ -797,6 +965,9 @@ func (x *c04xCtx) race() {
 		contract = "strict-delete"
 	}
 	x.stats[fmt.Sprintf("race-%s-%s-%d-ok", variant, contract, okBoth)]++
+	if kind != "valid" {
+		x.stats[fmt.Sprintf("race-second-%s-%d-ok", kind, okBoth)]++
+	}
 	// afterwards, sequentially: the code(s) again
 	x.exchange(a.codeStr, a.codeLabel, a.redirect, a.verifier, fc, 0)
 }
